@@ -33,6 +33,10 @@ func (i *interpreter) lookupExternal(fn *ssa.Function) externalFn {
 		i.res.Stubs[name] = true
 		return ext
 	}
+	if ext := bigBridge(fn); ext != nil {
+		i.res.Stubs["math/big.(*Int) methods on concrete operands run natively"] = true
+		return ext
+	}
 	if ext := atomicPointerModel(name); ext != nil {
 		i.res.Stubs["sync/atomic.Pointer[T]"] = true
 		return ext
